@@ -220,7 +220,7 @@ pub fn server_config(require_cert: bool) -> Arc<rustls::ServerConfig> {
 }
 
 fn client_config(t: &TlsClient) -> Arc<rustls::ClientConfig> {
-    let key = (t.cert as u8) | (t.v13 as u8) << 1 | (if t.cert { t.chain.min(3) } else { 0 }) << 2;
+    let key = (t.cert as u8) | (t.v13 as u8) << 1 | (if t.cert { t.chain.min(3) } else { 0 }) << 2 | (t.big_hello as u8) << 4;
     if let Some(c) = CCFG_CACHE.with(|c| c.borrow().iter().find(|e| e.0 == key).map(|e| e.1.clone())) {
         return c;
     }
@@ -249,6 +249,9 @@ fn client_config(t: &TlsClient) -> Arc<rustls::ClientConfig> {
         b.with_no_client_auth()
     };
     cfg.resumption = rustls::client::Resumption::disabled();
+    if t.big_hello {
+        cfg.alpn_protocols = (0..24u8).map(|i| vec![b'a' + i; 200]).collect();
+    }
     let cfg = Arc::new(cfg);
     CCFG_CACHE.with(|c| c.borrow_mut().push((key, cfg.clone())));
     cfg
